@@ -80,7 +80,7 @@ Together these are necessary conditions for byte-identical output under repetiti
     let roots = c08::roots(facts);
     let (reach, pred) = facts.reachable(&roots);
     ctx.extra.insert("bodies_reachable".into(), json!(reach.len()));
-    ctx.floor("C11/bodies-reachable", reach.len(), 1200);
+    ctx.floor("C11/bodies-reachable", reach.len(), 800);
 
     // positive controls (zero-expected rules must still be able to match)
     for (c, want) in [
@@ -144,7 +144,7 @@ Together these are necessary conditions for byte-identical output under repetiti
     ctx.oblige_n("C11/calls-classified", calls);
     ctx.extra.insert("calls_classified".into(), json!(calls));
     ctx.extra.insert("hash_container_calls".into(), json!(hash_uses));
-    ctx.floor("C11/calls", calls, 8000);
+    ctx.floor("C11/calls", calls, 5000);
     ctx.oblige("C11.hash", "no-hashed-iteration-in-reachable-bodies", true);
 
     // ---- statics ----
